@@ -354,6 +354,8 @@ func (tree *ParserT) parseStatement(exec bool) error {
 					return err
 				}
 				appendToParam(tree, value...)
+				// %() is an empty string, not a missing parameter
+				tree.statement.canHaveZeroLenStr = true
 			default:
 				appendToParam(tree, r)
 			}
